@@ -1,2 +1,83 @@
-(** C05 — statements only; see Proofs/. *)
-From RRSS Require Import Base.Outcome.
+(** C05 — Functions, scopes and pronouns: calls are by value and locals do not leak.
+    Statements only; proofs in Proofs/InterpLaws.v and Proofs/InterpInv.v. *)
+From Coq Require Import List ZArith NArith Bool.
+From RRSS Require Import Base.Outcome Base.Chars Base.F64 Exec.Val Exec.Ops Front.Ast Exec.Env Exec.Interp.
+From RRSS Require Import Proofs.InterpInv Proofs.InterpLaws Proofs.ArrayLaws.
+Import ListNotations.
+
+(** the call protocol: look the function up, check the arity, evaluate the arguments, bind them in
+    a fresh scope, run the body in a fresh statement executor, pop the scope, yield the value of the
+    return that was reached (mysterious if none) *)
+Theorem C05_call_clause :
+  forall prof f name args e,
+  call_function prof (S f) name args e =
+  (let+ (fd, e0) := lift_env (env_lookup_func name e) e in
+   let '(params, body) := fd in
+   if negb (len params =? len args)%N then XErr (RWrongArgs (len params) (len args)) e0 else
+   let+ (vals, e1) := produce_args prof f args e0 in
+   let+ (e2, _) := lift_env (env_push_function_scope (combine (map fst params) vals) e1) e1 in
+   match enter_call e2 with
+   | None => XOverBudget
+   | Some e2' =>
+       let+ (xs, e3) := exec_block prof f body x_init e2' in
+       let+ (e4, _) := lift_env (pop_scope prof (leave_call e3)) e3 in
+       XOk (match xret xs with Some v => v | None => VUndef end) e4
+   end).
+Proof. exact call_clause. Qed.
+
+(** arguments are evaluated left to right *)
+Theorem C05_args_left_to_right :
+  forall prof f x t e,
+  produce_args prof (S f) (x :: t) e =
+  (let+ (v, e1) := produce_expr prof f x e in
+   let+ (vs, e2) := produce_args prof f t e1 in
+   XOk (v :: vs) e2).
+Proof. exact args_clause. Qed.
+
+(** parameters live in a fresh scope on top of the caller's *)
+Theorem C05_parameters_in_fresh_scope :
+  forall args e e2, env_push_function_scope args e = Ok e2 ->
+  exists t, scopes e2 = t :: scopes e /\ last_access e2 = last_access e.
+Proof. exact push_function_scope_fresh. Qed.
+
+(** locals do not leak: a completed statement (if, loop, anything), call or expression leaves the
+    scope stack exactly as deep as it found it — every scope pushed for a body, branch or call has
+    been popped again, from any nesting depth and through recursion (the induction is on fuel) *)
+Theorem C05_scopes_restored_stmt :
+  forall prof fuel s xs e xs' e', wf e -> prex xs ->
+  exec_stmt prof fuel s xs e = XOk xs' e' -> depth_of e' = depth_of e.
+Proof. exact scopes_restored_stmt. Qed.
+
+Theorem C05_scopes_restored_call :
+  forall prof fuel n args e v e', wf e ->
+  call_function prof fuel n args e = XOk v e' -> depth_of e' = depth_of e.
+Proof. exact scopes_restored_call. Qed.
+
+(** updates of one variable never change another (callee writes to its parameters live in the
+    callee's scope: with the previous theorem they are gone after the call) *)
+Theorem C05_store_other_variable_unchanged :
+  forall n m v ss, varname_eqb (lower_name n) (lower_name m) = false ->
+  find_var n (store_var m v ss) = find_var n ss.
+Proof. exact store_other_variable_unchanged. Qed.
+
+(** a pronoun denotes the variable most recently named; none right after a block or call has ended *)
+Theorem C05_lookup_sets_pronoun : forall n e, last_access (snd (env_lookup_var n e)) = Some n.
+Proof. exact lookup_sets_pronoun. Qed.
+
+Theorem C05_pop_scope_clears_pronoun :
+  forall prof e e', pop_scope prof e = Ok e' -> last_access e' = None.
+Proof. exact pop_scope_clears_pronoun. Qed.
+
+(** wrong number of arguments, unknown names *)
+Theorem C05_arity_error :
+  forall prof f name args e params body,
+  env_lookup_func name e = Ok (params, body) -> len params <> len args ->
+  call_function prof (S f) name args e = XErr (RWrongArgs (len params) (len args)) e.
+Proof. exact arity_error. Qed.
+
+Theorem C05_unknown_name_error :
+  forall prof f n r e, find_var n (scopes e) = Err (NameNotFound n) ->
+  exists e', produce_primary prof (S f) (PIdent (IVar n) r) e = XErr (REnv (SymTableError (NameNotFound n))) e'.
+Proof. exact unknown_name_error. Qed.
+
+Print Assumptions C05_scopes_restored_stmt.
